@@ -2,6 +2,7 @@
 //! usage: pmv <prop> --tier quick|thorough --seed N --out DIR [--replay FILE]
 mod c12;
 mod c13;
+mod c14;
 mod c16;
 mod json;
 mod out;
@@ -55,6 +56,7 @@ fn main() {
         match prop.as_str() {
             "c12" => c12::replay(&line, &mut o),
             "c13" => c13::replay(&line, &mut o),
+            "c14" => c14::replay(&line, &mut o),
             "c16" => c16::replay(&line, &mut o),
             _ => panic!("unknown property"),
         }
@@ -62,6 +64,7 @@ fn main() {
         match prop.as_str() {
             "c12" => c12::run(tier, seed, &mut o),
             "c13" => c13::run(tier, seed, &mut o),
+            "c14" => c14::run(tier, seed, &mut o),
             "c16" => c16::run(tier, seed, &mut o),
             _ => {
                 eprintln!("unknown property {}", prop);
